@@ -81,15 +81,19 @@ class Tally:
             self.dist[bucket] = self.dist.get(bucket, 0) + 1
 
     def fail(self, kind, scenario, expected, got, signature, what=""):
-        # separate budgets: model/implementation disagreements must never crowd out spec failures
-        if sum(1 for f in self.failures if f["kind"] == kind) < (40 if kind == "spec" else 15):
+        # separate budgets: model/implementation disagreements must never crowd out spec failures, and many instances of one
+        # (possibly known) failure class must never crowd out a different class
+        self.fail_calls = getattr(self, "fail_calls", {})
+        self.fail_calls[kind] = self.fail_calls.get(kind, 0) + 1
+        same = sum(1 for f in self.failures if f["kind"] == kind and f["signature"] == signature)
+        if same < 6 and sum(1 for f in self.failures if f["kind"] == kind) < (120 if kind == "spec" else 15):
             self.failures.append({"kind": kind, "scenario": scenario, "expected": expected, "got": got,
                                   "signature": signature, "what": what})
 
     def saturated(self, kind="spec", n=12):
         """enough failures of this kind recorded: a long-running generator loop may stop (each failure costs simulation time
         on a broken tree; on a tree where the property holds this never triggers)"""
-        return sum(1 for f in self.failures if f["kind"] == kind) >= n
+        return getattr(self, "fail_calls", {}).get(kind, 0) >= n
 
     def result(self, rule, **extra):
         r = {"evaluations": self.evaluations, "distinct_nontrivial": len(self.distinct), "rule": rule,
